@@ -6,6 +6,7 @@ package main
 
 import (
 	"bytes"
+	"encoding/json"
 	"fmt"
 	"strings"
 	"testing/fstest"
@@ -18,11 +19,40 @@ type segSpec struct {
 	Kind  string   `json:"kind"`            // ok | missing | garbage | empty
 	Name  string   `json:"name"`            // file name without directory, e.g. "3.m4s"
 	Tfdt  uint64   `json:"tfdt"`            // decode time of the first fragment
-	Durs  []uint32 `json:"durs"`            // sample durations (all fragments together)
+	Durs  durList  `json:"durs"`            // sample durations (all fragments together), run-length coded in JSON
 	Split int      `json:"split,omitempty"` // >0: samples [split:] go into a second fragment
 	// Enc: how durations are written in the LAST fragment: "trun" (per sample), "tfhd" (tfhd default,
 	// needs equal durations there), "trex" (neither: the default inherited by the loader applies)
 	Enc string `json:"enc"`
+}
+
+// durList is a list of sample durations; in JSON it is a list of [duration, count] runs.
+type durList []uint32
+
+func (d durList) MarshalJSON() ([]byte, error) {
+	runs := [][2]uint32{}
+	for _, v := range d {
+		if n := len(runs); n > 0 && runs[n-1][0] == v {
+			runs[n-1][1]++
+		} else {
+			runs = append(runs, [2]uint32{v, 1})
+		}
+	}
+	return json.Marshal(runs)
+}
+
+func (d *durList) UnmarshalJSON(b []byte) error {
+	var runs [][2]uint32
+	if err := json.Unmarshal(b, &runs); err != nil {
+		return err
+	}
+	*d = nil
+	for _, r := range runs {
+		for i := uint32(0); i < r[1]; i++ {
+			*d = append(*d, r[0])
+		}
+	}
+	return nil
 }
 
 type sEntry struct {
